@@ -276,8 +276,11 @@ func c14ConsecutiveCounter(c *Ctx, rule string) {
 				}
 			case *ssa.UnOp:
 				for _, u := range *x.Referrers() {
-					if bo, ok := u.(*ssa.BinOp); ok && (bo.Op == token.GTR || bo.Op == token.GEQ) && bo.X == ssa.Value(x) {
-						e.cmp = true
+					if bo, ok := u.(*ssa.BinOp); ok && (bo.X == ssa.Value(x) || bo.Y == ssa.Value(x)) {
+						switch bo.Op {
+						case token.GTR, token.GEQ, token.LSS, token.LEQ:
+							e.cmp = true // a threshold test, whichever way it is written
+						}
 					}
 				}
 			}
@@ -324,15 +327,48 @@ func perPacketRule(c *Ctx, rule string, rels []string, floor int) {
 			continue
 		}
 		for _, b := range fn.Blocks {
-			if b.Comment != "rangeindex.body" {
-				continue
-			}
-			// the ranged slice: the IndexAddr on the loop index in this block
+			// a loop over a slice, in either style (range, or an index loop): the body block is the
+			// one that takes the element at the loop counter
 			var elemT types.Type
 			var ranged ssa.Value
 			for _, in := range b.Instrs {
 				if ia, ok := in.(*ssa.IndexAddr); ok {
+					idx := stripConv(ia.Index)
+					isCounter := false
+					if ph, ok := idx.(*ssa.Phi); ok && len(ph.Edges) == 2 {
+						isCounter = true
+					}
+					if bo, ok := idx.(*ssa.BinOp); ok && bo.Op == token.ADD {
+						if _, ok := bo.X.(*ssa.Phi); ok {
+							isCounter = true
+						}
+					}
+					if !isCounter {
+						continue
+					}
+					// the loop takes elements out (a load through the address), it does not fill the slice
+					loads, stores := 0, 0
+					for _, rr := range *ia.Referrers() {
+						switch y := rr.(type) {
+						case *ssa.UnOp:
+							loads++
+						case *ssa.Store:
+							if y.Addr == ssa.Value(ia) {
+								stores++
+							}
+						}
+					}
+					if loads == 0 || stores > 0 {
+						continue
+					}
 					if sl, ok := ia.X.Type().Underlying().(*types.Slice); ok {
+						// the released packets are a local value (the reorderer's result), never the
+						// receiver's own ring, which legitimately takes the arriving packet
+						if ld, isLoad := ia.X.(*ssa.UnOp); isLoad {
+							if _, isField := ld.X.(*ssa.FieldAddr); isField {
+								continue
+							}
+						}
 						elemT = sl.Elem()
 						ranged = ia.X
 						break
